@@ -88,7 +88,10 @@ def expected_term(fn):
         res = fn()
     except Exception as exc:  # noqa: BLE001
         return f"(EErr {core.err_enum(exc)})", ("err", core.err_enum(exc), repr(exc)[:200])
-    shape, els = core.observe_any(res)
+    try:
+        shape, els = core.observe_any(res)
+    except ValueError as exc:     # a coefficient that is not an integer although every operand is integer-valued
+        return "(EErr OtherError)", ("garbage", str(exc), repr(res)[:300])
     return f"(EOk {core.coq_obs(shape, els)})", ("ok", shape, els)
 
 
@@ -105,6 +108,26 @@ def make_cases(rng, n, maxdepth):
                 a = gen.rand_poly(rng, (2,), None)
                 b = gen.rand_poly(rng, (3,), None)
                 leaves = [a, b]
+            elif rng.random() < 0.2:
+                # the paths beside the compiled product kernel: narrow / single-precision / complex coefficient dtypes
+                # (integer-valued, small enough not to wrap) and exponent sums beyond one key byte
+                s1, s2 = gen.broadcast_pair(rng, 2)
+                if rng.random() < 0.6:
+                    dts = [numpy.int32, numpy.int16, numpy.float32, numpy.complex64, numpy.complex128, numpy.float16]
+                    d1 = rng.choice(dts)
+                    d2 = d1 if rng.random() < 0.6 else rng.choice(dts)
+                    a = gen.rand_poly(rng, s1, gen.rand_names(rng, 2), nterms=rng.choice([2, 3]), maxexp=2, dtype=d1)
+                    b = gen.rand_poly(rng, s2, gen.rand_names(rng, 2), nterms=rng.choice([1, 2, 3]), maxexp=2, dtype=d2)
+                else:
+                    big = rng.choice([35, 40, 69, 130])
+                    a = gen.rand_poly(rng, s1, gen.rand_names(rng, 2), nterms=rng.choice([2, 3]), maxexp=big)
+                    b = gen.rand_poly(rng, s2, gen.rand_names(rng, 2), nterms=rng.choice([1, 2]), maxexp=big)
+                leaves = [a, b]
+                if rng.random() < 0.25:
+                    leaves = [a]
+                    tree = ("pow", ("leaf", 0), rng.choice([2, 3]))
+                else:
+                    tree = (rng.choice(["mul", "mul", "add", "sub"]), ("leaf", 0), ("leaf", 1))
         elif r < 0.55:
             a = gen.rand_poly(rng)
             leaves = [a]
@@ -153,6 +176,7 @@ def run(report, tier, seed):
     rng = core.rng_for(seed, "C01")
     cc = core.CoqCases("C01", HEADER, shard=250)
     distinct = set()
+    garbage = []
     dist = {"ops": {}, "shapes": {}, "errors": 0, "numeric_operand": 0, "name_relation": {}}
     made = 0
     for tree, leaves, spell in make_cases(rng, n, maxdepth):
@@ -164,6 +188,9 @@ def run(report, tier, seed):
         except ValueError:
             continue
         exp_term, exp_py = expected_term(lambda: eval_impl(tree, leaves, spell))
+        if exp_py[0] == "garbage":
+            garbage.append((tree_str(tree), [gen.describe(x) for x in leaves], exp_py))
+            continue
         term = f"chk_wf (eval D {tree_coq(tree, [core.coq_parr(l) for l in lays])}) {exp_term}"
         meta = {"tree": tree, "expr": tree_str(tree), "leaves": lays, "numpy_spelling": spell,
                 "leaf_desc": [gen.describe(x) for x in leaves], "impl": exp_py}
@@ -198,6 +225,9 @@ def run(report, tier, seed):
         if rng.random() < 0.3:
             e = e.tolist()
         exp_term, exp_py = expected_term(lambda: x ** e)
+        if exp_py[0] == "garbage":
+            garbage.append(("x0 ** array", [gen.describe(x), str(es)], exp_py))
+            continue
         lay = core.as_layout(x)
         term = f"chk_wf (zpow_arr D {core.coq_parr(lay)} {core.cnats(s2)} {core.cnats(es)}) {exp_term}"
         cc.add(term, {"tree": "pow_array", "expr": f"x0 ** array{tuple(s2)}", "leaves": [lay],
@@ -217,6 +247,9 @@ def run(report, tier, seed):
     for k, path, log in errors:
         report.violation(f"correspondence shard {path} did not evaluate: {log[-400:]}",
                          {"kind": "shard-error", "shard": path, "log": log}, found_input=False)
+    for expr, descs, gp in garbage[:5]:
+        report.violation(f"C01: {expr} on integer-valued operands {descs} holds a coefficient that is not an integer "
+                         f"({gp[1]}): {gp[2][:200]}", {"kind": "garbage-coefficient", "expr": expr, "leaves": descs, "impl": gp[2]})
     for idx in failed[:20]:
         term, meta = cc.cases[idx]
         meta["model"] = "(model value: evaluate `" + term.split(") (E")[0][len("chk_wf "):][:200] + "...` with vm_compute)"
